@@ -225,7 +225,7 @@ func c08(run *ev.Run) int {
 		c08Paired(run, "c08")
 	}
 	if !run.Replaying() || strings.Contains(os.Getenv("VERIF_REPLAY_KEY"), "/peer-terminator/") {
-		c08PeerTerminators(run)
+		c08PeerTerminators(run, "c08")
 	}
 	return run.Finish("negotiations", "compressed.payloads.verified", "below_min.checked", "unsupported.rejections", "isolation.valid_calls", "isolation.corrupt_calls", "paired.rendezvous", "peer_terminators.decoded")
 }
@@ -837,7 +837,7 @@ func c08Paired(run *ev.Run, prefix string) {
 // handler does, above compress-min): a Connect end-of-stream message with flags
 // 0x03, a gRPC-Web trailers frame with flags 0x81. The client must read the
 // error and the trailing metadata out of it.
-func c08PeerTerminators(run *ev.Run) {
+func c08PeerTerminators(run *ev.Run, prefix string) {
 	algos := svc.RefAlgos()
 	stats := &svc.AlgoStats{}
 	zd, zc := svc.Algo("Zz-Xor", stats)
@@ -847,7 +847,7 @@ func c08PeerTerminators(run *ev.Run) {
 		for _, protocol := range []string{"connect", "grpcweb"} {
 			for _, ending := range []string{"ok", "error"} {
 				for _, msgCompressed := range []bool{true, false} {
-					key := fmt.Sprintf("c08/peer-terminator/%s/%s/%s/msg-compressed=%v", protocol, algo, ending, msgCompressed)
+					key := fmt.Sprintf("%s/peer-terminator/%s/%s/%s/msg-compressed=%v", prefix, protocol, algo, ending, msgCompressed)
 					if !run.Want(key) {
 						continue
 					}
